@@ -111,7 +111,9 @@ def moduleCollides (collisions reserved : List Str) (module : Str) : Bool :=
   decide (module ∈ collisions) || decide (module ∈ reserved)
 
 /-- `Method.query_params` followed by the template's `|sort`:
-`set(self.input.fields) - params`, params = path params (+ body field); `none` body = no body,
+`set(self.input.fields) - params`, params = the path params — each already suffixed with `_` when it
+is a reserved name, as the source does since `fix: do not list a reserved-word path field among the
+query parameters`; the caller passes them in that form — (+ body field); `none` body = no body,
 body `*` is handled by the caller (empty set). -/
 def queryParams (fields pathParams : List Str) (body : Option Str) : List Str :=
   let params := pathParams ++ body.toList
